@@ -35,9 +35,9 @@ def runContainerOpen (args : List String) : IO String := do
     | .ok c =>
       match decodeDirPack c.dirPack with
       | .ok d =>
-        match d.indexes.find? (fun ix => ix.name == strBytes "main") with
-        | none => return "err:noindex"
-        | some ix =>
+        match lookupIndexByName d.indexOutcomes (strBytes "main") with
+        | .ok none => return "noindex"
+        | .ok (some ix) =>
           match d.stores[ix.storeId]? with
           | some (.ok (l, data)) =>
             let getVS : Nat → Outcome (ValueStoreTail × Bytes) := fun i =>
@@ -89,6 +89,7 @@ def runContainerOpen (args : List String) : IO String := do
             return ";".intercalate lines
           | some r => return errStr r
           | none => return "panic store index"
+        | r => return errStr r
       | r => return errStr r
     | r => return errStr r
   | _ => return "bad-args"
@@ -106,9 +107,9 @@ def containerReadScript (fs : FS) (entry decdir : String) : IO (Outcome String) 
   | .ok c =>
     match decodeDirPack c.dirPack with
     | .ok d =>
-      match d.indexes.find? (fun ix => ix.name == strBytes "main") with
-      | none => return .err .other
-      | some ix =>
+      match lookupIndexByName d.indexOutcomes (strBytes "main") with
+      | .ok none => return .ok "noindex"
+      | .ok (some ix) =>
         match d.stores[ix.storeId]? with
         | some (.ok (l, data)) =>
           let getVS : Nat → Outcome (ValueStoreTail × Bytes) := fun i =>
@@ -217,6 +218,9 @@ def containerReadScript (fs : FS) (entry decdir : String) : IO (Outcome String) 
         | some (.panic s) => return .panic s
         | some _ => return .hang
         | none => return .panic "store index"
+      | .err k => return .err k
+      | .panic s => return .panic s
+      | _ => return .hang
     | .err k => return .err k
     | .panic s => return .panic s
     | _ => return .hang
